@@ -146,9 +146,19 @@ func (C07) Execute(t *testing.T, sc *core.Scenario) *core.Result {
 	pending := map[int]bool{} // put since the last commit / rejection / reopen
 	var persisted hash.Hash  // the model's persisted root
 	rejections, dangerous := 0, 0
+	taint := "" // set once the store accepted a dangling table file: later dangling states are its consequences
 	sig := core.NewSig()
 
 	present := func(i int) bool { return durable[i] || pending[i] }
+	// After a rejection the store drops its memtable, but chunks already flushed to (uncommitted)
+	// table files stay: ask the store which pending chunks are still there.
+	refreshPending := func() {
+		for k := range pending {
+			if ok, err := st.Has(ctx, u.Chunks[k].Addr); err != nil || !ok {
+				delete(pending, k)
+			}
+		}
+	}
 	// wouldDangle: does the closure of root (over the model's graph) leave the present set?
 	wouldDangle := func(rootIdx int) (bool, string) {
 		seen := map[int]bool{}
@@ -211,7 +221,7 @@ func (C07) Execute(t *testing.T, sc *core.Scenario) *core.Result {
 			}
 			if c.IsEmpty() {
 				if ok, _ := v.Has(ctx, h); !ok {
-					res.Violate("dangling-reference-persisted", "after="+why, step, "persisted root %s reaches %s which is not in the store", short(r), short(h))
+					res.Violate("dangling-reference-persisted", "after="+why+taint, step, "persisted root %s reaches %s which is not in the store", short(r), short(h))
 					return
 				}
 			}
@@ -239,9 +249,7 @@ func (C07) Execute(t *testing.T, sc *core.Scenario) *core.Result {
 					// a flush triggered by this put found a dangling child: the memtable is dropped
 					res.Probe("put_rejected")
 					sig.Add("putrej")
-					for k := range pending {
-						delete(pending, k)
-					}
+					refreshPending()
 					continue
 				}
 				if !durable[ci] {
@@ -273,7 +281,11 @@ func (C07) Execute(t *testing.T, sc *core.Scenario) *core.Result {
 					res.Violate("stale-commit-succeeded", "-", i, "commit with a stale expected root succeeded")
 				}
 				if dangles {
-					res.Violate("dangling-commit-accepted", "config="+b.Config, i, "Commit(%s) succeeded although %s", short(u.Chunks[ri].Addr), why)
+					// The model's presence bookkeeping is approximate (flushes move chunks out of the
+					// memtable at points it does not see); the arbiter is the reachability walk over
+					// the persisted bytes that follows (checkPersisted).
+					res.Probe("model_predicted_dangle_on_accepted_commit")
+					_ = why
 				}
 				persisted = u.Chunks[ri].Addr
 				for k := range pending {
@@ -291,9 +303,7 @@ func (C07) Execute(t *testing.T, sc *core.Scenario) *core.Result {
 					// flush has to check against durable tables only)
 					res.Probe("rejected_although_model_says_closed")
 				}
-				for k := range pending {
-					delete(pending, k) // the memtable is dropped by design
-				}
+				refreshPending() // the memtable is dropped by design
 				// a subsequent well-formed commit must work: put a fresh leaf and commit it over the current root
 				leaf := EncodeChunk(nil, 8, uint64(i)+4242, false)
 				if !persisted.IsEmpty() {
@@ -325,9 +335,7 @@ func (C07) Execute(t *testing.T, sc *core.Scenario) *core.Result {
 			default:
 				sig.Add("err")
 				res.Probe("commit_other_error:" + firstLine(err)[:min(50, len(firstLine(err)))])
-				for k := range pending {
-					delete(pending, k)
-				}
+				refreshPending()
 			}
 			checkPersisted(i, "commit")
 		case "rebase":
@@ -337,13 +345,19 @@ func (C07) Execute(t *testing.T, sc *core.Scenario) *core.Result {
 		case "reopen":
 			st.Close()
 			st = nil
-			for k := range pending {
-				delete(pending, k)
-			}
 			st, err = openC07(ctx, &b, dir)
 			if err != nil {
 				res.Violate("reopen-failed", "-", i, "%s", firstLine(err))
 				return res
+			}
+			// Uncommitted chunks that had been flushed to the journal are still there after a clean
+			// reopen (the journal replays every valid record); those that only sat in the memtable or
+			// in uncommitted table files are gone. Ask the store; survivors now live in a table source.
+			for k := range pending {
+				if ok, err := st.Has(ctx, u.Chunks[k].Addr); err == nil && ok {
+					durable[k] = true
+				}
+				delete(pending, k)
 			}
 			res.Fault("clean-restart")
 			checkPersisted(i, "reopen")
@@ -407,6 +421,7 @@ func (C07) Execute(t *testing.T, sc *core.Scenario) *core.Result {
 				inFile[ci] = true
 			}
 			dangles := false
+			whyDangles := ""
 			for _, ci := range idx {
 				for _, k := range u.Chunks[ci].Kids {
 					ki, ok := u.ByAddr[k]
@@ -414,20 +429,33 @@ func (C07) Execute(t *testing.T, sc *core.Scenario) *core.Result {
 						// children that only sit in the memtable are not durable: adding the file would
 						// leave the manifest naming a chunk whose child is not in any table file
 						dangles = true
+						w := "child-absent"
+						if ok && pending[ki] {
+							w = "child-uncommitted"
+						}
+						if whyDangles == "" || w == "child-absent" {
+							whyDangles = w
+						}
 					}
 				}
+			}
+			if persisted.IsEmpty() && dangles {
+				whyDangles = "store-root-empty"
 			}
 			err = st.AddTableFilesToManifest(ctx, files, GetAddrsCurry)
 			if err == nil {
 				if dangles {
-					res.Violate("dangling-table-file-accepted", "config="+b.Config, i, "AddTableFilesToManifest accepted a file whose chunks reference chunks that are in no table file")
+					res.Violate("dangling-table-file-accepted", "why="+whyDangles, i, "AddTableFilesToManifest accepted a file whose chunks reference chunks that are in no table file (%s)", whyDangles)
+					if taint == "" {
+						taint = ";tainted-by=dangling-table-file(" + whyDangles + ")"
+					}
 				}
 				for _, ci := range idx {
 					durable[ci] = true
 					delete(pending, ci)
 				}
 				res.Fault("table-file-added")
-			} else if errors.Is(err, nbs.ErrDanglingRef) {
+			} else if errors.Is(err, nbs.ErrDanglingRef) || errors.Is(err, nbs.ErrTableFileNotFound) {
 				res.Fault("dangling-table-file-rejected")
 				if !dangles {
 					res.Probe("table_file_rejected_although_closed")
